@@ -210,6 +210,12 @@ func applyMut(m Mut, q sigreq.Req, s *sigreq.Signed, body []byte) ([]byte, bool)
 		nb = append(nb, body[b.HeaderStart:b.End]...)
 		nb = append(nb, body[a.HeaderStart:a.End]...)
 		return append(nb, body[b.End:]...), true
+	case "oversize", "oversize-same-length": // the chunk claims the whole rest of the body as data
+		c, ok := pick(data)
+		if !ok {
+			return nil, false
+		}
+		return sigreq.OversizeChunk(body, c, m.Kind == "oversize-same-length")
 	case "truncate": // cut at a chunk boundary: the later chunks, the final chunk and the trailer never arrive
 		c, ok := pick(data)
 		if !ok || c.End == data[len(data)-1].End {
@@ -234,7 +240,7 @@ func nextHex(c byte) byte {
 }
 
 var mutKinds = []string{"data-flip", "data-flip", "chunk-sig", "chunk-sig", "trailer-value", "trailer-value", "trailer-sig", "trailer-remove", "len-minus", "len-plus", "len-huge", "len-junk",
-	"shrink", "drop-chunk", "dup-chunk", "swap-chunks", "truncate"}
+	"shrink", "drop-chunk", "dup-chunk", "swap-chunks", "truncate", "oversize", "oversize-same-length"}
 
 func run(env *ev.Env, c Case) (o ev.Outcome) {
 	q := c.Req
@@ -258,7 +264,13 @@ func run(env *ev.Env, c Case) (o ev.Outcome) {
 		o.Failf("harness: open storage: %v", err)
 		return
 	}
-	defer inst.Close()
+	wedged := false
+	defer func() {
+		if !wedged {
+			inst.Close()
+		}
+		// a wedged instance (leaked write transaction after a handler panic) is abandoned: Close could block
+	}()
 	ctx := context.Background()
 	bucket, _ := storage.NewBucketName("bucket")
 	if err := inst.Storage.CreateBucket(ctx, bucket); err != nil {
@@ -362,6 +374,9 @@ func run(env *ev.Env, c Case) (o ev.Outcome) {
 	}
 	o.Sub++
 	wantEnc := strings.TrimSpace(q.Encoding2)
+	if c.Target == "part" {
+		wantEnc = "" // object metadata of a multipart upload comes from CreateMultipartUpload, not from UploadPart
+	}
 	if st.up.status != 200 || !st.exists || !bytes.Equal(st.content, payload) || st.encoding != wantEnc {
 		// D17: without a verified SigV4 signature nobody decodes the aws-chunked framing
 		if c.Auth != "enabled" && st.up.status == 200 && st.exists && bytes.Equal(st.content, w0.Body) {
@@ -382,7 +397,20 @@ func run(env *ev.Env, c Case) (o ev.Outcome) {
 	_ = s0
 
 	// ---- mutants -------------------------------------------------------------------------------
+	// the len-huge mutant can wedge the instance (KF-C30-3): run those after every other mutant
+	order := make([]int, 0, len(c.Muts))
 	for i, m := range c.Muts {
+		if m.Kind != "len-huge" {
+			order = append(order, i)
+		}
+	}
+	for i, m := range c.Muts {
+		if m.Kind == "len-huge" {
+			order = append(order, i)
+		}
+	}
+	for _, i := range order {
+		m := c.Muts[i]
 		key := fmt.Sprintf("obj-%d", i+1)
 		var mutatedBody []byte
 		st, s, _, applicable, err := upload(key, func(w *sigreq.Wire, s *sigreq.Signed) bool {
@@ -402,10 +430,27 @@ func run(env *ev.Env, c Case) (o ev.Outcome) {
 			o.Count("mut-not-applicable:"+m.Kind, 1)
 			continue
 		}
-		_ = mutatedBody
 		o.Sub++
 		if st.up.panic != nil {
 			o.Count("handler-panic:"+m.Kind, 1)
+			wedged = true
+			// does the server still accept writes? (the panic unwound through database.WithTx, which has no deferred rollback)
+			pctx, cancel := context.WithTimeout(ctx, 400*time.Millisecond)
+			pk, _ := storage.NewObjectKey("probe-after-panic")
+			_, perr := inst.Storage.PutObject(pctx, bucket, pk, nil, strings.NewReader("x"), nil, nil)
+			cancel()
+			blocked := perr != nil
+			msg := fmt.Sprintf("mutant %+v of a %s upload: the handler panicked (%v); a following PutObject with a 400 ms deadline: %v", m, q.Mode, st.up.panic, perr)
+			if m.Kind == "len-huge" && strings.Contains(fmt.Sprint(st.up.panic), "slice bounds out of range") && blocked {
+				o.Class("mutant:chunk-length-overflow-panic")
+				if env.Known("c30.chunkLengthOverflowPanic") {
+					o.KnownHits = append(o.KnownHits, "KF-C30-3")
+					o.Excluded = true
+					return
+				}
+			}
+			o.Failf("%s", msg)
+			return
 		}
 		failed := st.up.status < 200 || st.up.status >= 300
 		unchanged := (!c.Prior && !st.exists) || (c.Prior && st.exists && bytes.Equal(st.content, priorContent))
@@ -416,11 +461,11 @@ func run(env *ev.Env, c Case) (o ev.Outcome) {
 			o.Count(fmt.Sprintf("mut-rejected-%d:%s", st.up.status, m.Kind), 1)
 			continue
 		}
-		// known: truncation at a chunk boundary with an unsigned content length (KF-C28-1 at the storage level)
-		if m.Kind == "truncate" && q.TE && !failed && st.exists && bytes.HasPrefix(s.Payload, st.content) && len(st.content) < len(s.Payload) &&
-			(q.Mode == sigreq.ModeStream || q.Mode == sigreq.ModeStreamTrailer || q.Mode == sigreq.ModeUnsignedTrailer) {
-			o.Class("mutant:truncated-upload-stored")
-			if env.Known("c30.truncatedChunkStreamStored") {
+		// known: the chunk stream ends before its final zero-length chunk (cut at a chunk boundary, or inside a
+		// chunk that claims more data than there is) and the decoder reports a clean end of the payload
+		if walked, end := sigreq.WalkChunks(mutatedBody); (end == "at-boundary" || end == "inside-chunk") && !failed && st.exists && bytes.HasPrefix(walked, st.content) {
+			o.Class("mutant:premature-end-stored:" + end)
+			if env.Known("c30.prematureEndOfChunkStreamStored") {
 				o.KnownHits = append(o.KnownHits, "KF-C30-2")
 				continue
 			}
@@ -506,7 +551,7 @@ func directed(env *ev.Env) []Case {
 				for _, te := range []bool{false, true} {
 					c := Case{Auth: auth, Target: "put", Stack: "sql", Req: sigreq.Req{Mode: mode, Region: "us-east-1", Body: gen.BodySpec{Kind: "text", Len: 150}, Chunks: []int{7, 64, 1}, Trailer: alg, Framing: "sdk", TE: te}}
 					if auth == "enabled" {
-						for _, k := range []string{"data-flip", "chunk-sig", "trailer-value", "trailer-sig", "trailer-remove", "len-minus", "len-plus", "len-huge", "len-junk", "shrink", "drop-chunk", "dup-chunk", "swap-chunks", "truncate"} {
+						for _, k := range []string{"data-flip", "chunk-sig", "trailer-value", "trailer-sig", "trailer-remove", "len-minus", "len-plus", "len-huge", "len-junk", "shrink", "drop-chunk", "dup-chunk", "swap-chunks", "truncate", "oversize", "oversize-same-length"} {
 							c.Muts = append(c.Muts, Mut{Kind: k, Chunk: 1, Off: 3})
 						}
 					}
